@@ -118,15 +118,21 @@ class Tbl(Stub):
 
 def ghost_fs(ops):
     """the ghost file system implied by the logged operations: path -> (columns, header keys, write options)"""
+    import os as _os_
+
+    def key(pth):
+        # a path object and the string it stands for name the same file
+        return _os_.fspath(pth) if isinstance(pth, _os_.PathLike) else pth
+
     fs = {}
     for o in ops:
         if o[0] == "write":
-            fs[o[1]] = (tuple(o[3]), tuple(o[4]), tuple(sorted(o[2].items())))
+            fs[key(o[1])] = (tuple(o[3]), tuple(o[4]), tuple(sorted(o[2].items())))
         elif o[0] == "replace":
-            if o[1] in fs:
-                fs[o[2]] = fs.pop(o[1])
+            if key(o[1]) in fs:
+                fs[key(o[2])] = fs.pop(key(o[1]))
         elif o[0] == "remove":
-            fs.pop(o[1], None)
+            fs.pop(key(o[1]), None)
     return fs
 
 
@@ -203,7 +209,7 @@ class Model:
         ops_ = state["ops"]
 
         def _known(pth):
-            return isinstance(pth, str) and (pth in ghost_fs(ops_) or pth.endswith(self.output_file))
+            return isinstance(pth, str) and (pth in ghost_fs(ops_) or pth.endswith(_os.fspath(self.output_file)))
 
         def g_replace(interp, a, b, *x, **k):
             ops_.append(("replace", _os.fspath(a), _os.fspath(b)))
